@@ -5,6 +5,7 @@ package zzverif
 
 import (
 	"fmt"
+	"math"
 	"runtime"
 	"time"
 )
@@ -118,7 +119,13 @@ func StepBudget(n int) {}
 func Symbolic() bool { return false }
 
 // F64 is a real-valued input in [lo,hi] (arithmetic mode only).
-func F64(n string, lo, hi float64) float64 { panic("F64 inputs cannot be replayed natively") }
+func F64(n string, lo, hi float64) float64 {
+	f := math.Float64frombits(in(n)) // the solver's rational value rounded to float64
+	if !(f >= lo && f <= hi) {
+		panic(Skip{"float input out of range"})
+	}
+	return f
+}
 
 // B2I is 1 for true, 0 for false, without a fork under the engine (intrinsic).
 func B2I(b bool) int {
